@@ -97,7 +97,32 @@ def run(ctx, anchors=None):
         if guards:
             sites.append((f, al, guards))
     ctx.floor("R11.1", nreads, 8, "reads of the mock tables in step-reachable code")
-    ctx.floor("R11.2", sum(len(g) for (_f, _a, g) in sites), 2, "mock branches (CHECKSIG helper and CHECKMULTISIG loop)")
+    nb = sum(len(g) for (_f, _a, g) in sites)
+    if nb < 2:
+        where = [f_.name for (f_, _a, g) in sites]
+        ctx.fail("R11.2", "mock-branch-keyed-on-checked-key", opstep.loc(),
+                 "expected a mock branch `if (pretend_valid_pubkeys.count(<key being checked>))` in EvalChecksig and in the CHECKMULTISIG loop, found only in %s: "
+                 "the mock selection is no longer keyed on the key, so a listed signature offered for an unlisted key (or vice versa) changes the outcome" % (where or "none"))
+    # reads of the mock tables outside the step: only the parser's own stores and the copies into the environment
+    for f in fb.funcs.values():
+        if f.id in reach or not f.file.startswith(("instance.", "btcdeb.cpp", "functions.", "tap.cpp")):
+            continue
+        for n in f.nodes():
+            if n["k"] == "mem" and n["n"] in FIELDS:
+                ctx.site()
+                par = f.parent(n)
+                okp = False
+                why = ""
+                if f.short == "parse_pretend_valid_expr":
+                    okp = True
+                    why = "the pair-list parser's own store"
+                elif par is not None and par.get("k") == "opcall" and par.get("op") == "=" and astq.estr(par["args"][0]).endswith(n["n"]) and astq.estr(par["args"][1]).endswith(n["n"]):
+                    okp = True
+                    why = "copy of the table into the session environment"
+                key = "setup-read=%s@%s:%s" % (n["n"], f.name, astq.estr(par)[:40] if par is not None else "?")
+                ctx.inst(okp, "R11.1", key, f.loc(n), "%s: %s" % (n["n"], why),
+                         "%s is consulted in %s (`%s`): the option changes session set-up (flags, scripts) for scripts that do not involve a listed key"
+                         % (n["n"], f.name, astq.estr([a for a in f.ancestors(n) if a.get("k") in ("if", "assign", "cassign", "decl", "return")][0])[:90] if [a for a in f.ancestors(n) if a.get("k") in ("if", "assign", "cassign", "decl", "return")] else ""))
     preds = []
     for (f, al, guards) in sites:
         cfg = f.cfg()
@@ -208,6 +233,10 @@ def run(ctx, anchors=None):
 
 
 MUTANTS = [
+    dict(name="multisig-mock-keyed-on-signature-lookup", file="script/interpreter.cpp",
+         find="                        if (pretend_valid_pubkeys.count(vchPubKey)) {\n                            fOk = pretend_valid_map.count(vchSig) && pretend_valid_map.at(vchSig) == vchPubKey;",
+         replace="                        auto mock = pretend_valid_map.find(vchSig);\n                        if (mock != pretend_valid_map.end()) {\n                            fOk = mock->second == vchPubKey;", expect=["R11.2:mock-branch-keyed-on-checked-key", "R11.1:read"]),
+    dict(name="mock-changes-flags", file="instance.cpp", find="    env = new InterpreterEnv(stack, script, flags, *checker, sigver, &error);", replace="    if (!pretend_valid_map.empty()) flags &= ~SCRIPT_VERIFY_CONST_SCRIPTCODE;\n    env = new InterpreterEnv(stack, script, flags, *checker, sigver, &error);", expect=["R11.1:setup-read=pretend_valid_map"]),
     dict(name="taproot-check-before-mock", file="script/interpreter.cpp",
          find="    if (pretend_valid_pubkeys.count(pubkey)) {\n        success = pretend_valid_map.count(sig) && pretend_valid_map.at(sig) == pubkey;",
          replace="    if (sigversion == SigVersion::TAPROOT) {\n        success = checker.CheckSchnorrSignature(sig, pubkey, SigVersion::TAPROOT, execdata);\n        return success;\n    }\n    if (pretend_valid_pubkeys.count(pubkey)) {\n        success = pretend_valid_map.count(sig) && pretend_valid_map.at(sig) == pubkey;",
